@@ -211,17 +211,26 @@ bool huge_free(void* p) {
 // iteration): a parse of <= 8 KiB needs a few allocations per input byte; 400000 is more than ten times that.
 constexpr uint64_t RUNAWAY = 48ull << 20;
 constexpr uint64_t RUNAWAY_CALLS = 400000;
+// A single large request (>= 1 MiB) is what a reserve() computed from an
+// attacker-supplied length prefix looks like: bounded, happens a handful of
+// times per parse, and is not non-termination (the statement does not forbid
+// large allocations). Such requests are tallied separately and only count as
+// runaway when they add up to more than any terminating parse could ask for.
+constexpr uint64_t LARGE_REQUEST = 1ull << 20;
+constexpr uint64_t RUNAWAY_LARGE = 6ull << 30;
+uint64_t g_cum_large = 0;
 uint64_t g_cum_alloc = 0;
 uint64_t g_parse_calls = 0;
 bool g_cum_armed = false;
 void* do_new(size_t n, size_t align, bool nothrow) {
   void* p;
   if (g_cum_armed && n <= HUGE_ALLOC &&
-      ((g_cum_alloc += n) > RUNAWAY || (vs::g_escape_armed && ++g_parse_calls > RUNAWAY_CALLS))) {
+      ((n >= LARGE_REQUEST ? (g_cum_large += n) > RUNAWAY_LARGE : (g_cum_alloc += n) > RUNAWAY) ||
+       (vs::g_escape_armed && ++g_parse_calls > RUNAWAY_CALLS))) {
     g_cum_armed = false;
     if (vs::g_escape_armed) {
       vs::compute_spin_site();
-      snprintf(vs::g_escape_msg, sizeof vs::g_escape_msg, "%llu MiB in %llu requests through operator new so far", (unsigned long long)(g_cum_alloc >> 20),
+      snprintf(vs::g_escape_msg, sizeof vs::g_escape_msg, "%llu MiB in %llu requests through operator new so far", (unsigned long long)((g_cum_alloc + g_cum_large) >> 20),
                (unsigned long long)g_parse_calls);
       siglongjmp(vs::g_escape_jmp, 3);
     }
@@ -270,12 +279,14 @@ void operator delete[](void* p, std::align_val_t, const std::nothrow_t&) noexcep
 namespace vs {
 void alloc_guard_reset(bool armed) {
   g_cum_alloc = 0;
+  g_cum_large = 0;
   g_parse_calls = 0;
   g_cum_armed = armed;
 }
 void alloc_guard_parse_begin() {
   g_parse_calls = 0;
   g_cum_alloc = 0;
+  g_cum_large = 0;
   g_cum_armed = true;
 }
 }  // namespace vs
